@@ -26,7 +26,8 @@ func checkC14Cfg(c c14CfgCase) verdict {
 	lc := toLib(c.Cfg)
 	e1 := lc.Validate()
 	_, e2 := otp.NewSuite(lc)
-	e3 := otp.RawSuite{SuiteConfig: lc}.Validate()
+	rs0 := otp.RawSuite{SuiteConfig: lc} // a variable: the method may have a pointer receiver
+	e3 := rs0.Validate()
 	labels := []string{fmt.Sprintf("usable=%v", want)}
 	if (e1 == nil) != want || (e2 == nil) != want || (e3 == nil) != want {
 		return bad(true, labels, "suite %+v: usable by the rule = %v, but SuiteConfig.Validate=%v NewSuite=%v RawSuite.Validate=%v", c.Cfg, want, e1, e2, e3)
